@@ -2,6 +2,7 @@ mod c01;
 mod c01model;
 mod c02;
 mod c03;
+mod c04;
 mod c05;
 mod c07;
 mod c09;
@@ -54,6 +55,7 @@ fn main() {
                 "C01" => c01::check(&tier),
                 "C02" => c02::check(&tier),
                 "C03" => c03::check(&tier),
+                "C04" => c04::check(&tier),
                 "C05" => c05::check(&tier),
                 "C07" => c07::check(&tier),
                 "C09" => c09::check(&tier),
